@@ -80,6 +80,10 @@ PLANS["C05"] = {
 }
 PLANS["C06"] = dict(PLANS["C05"])
 PLANS["C06"]["title"] = "query functions reflect exactly the edits made"
+PLANS["C06"]["quick"] = PLANS["C05"]["quick"] + [fam("grow-san", "san", "grow", {}, weight=1, crash_props=["C17", "C06"], timeout=300)]
+PLANS["C06"]["thorough"] = PLANS["C05"]["thorough"] + [fam("grow-san", "san", "grow", {}, weight=1, crash_props=["C17", "C06"], timeout=300), fam("grow-prod", "prod", "grow", {}, weight=1, crash_props=["C17", "C06"], timeout=300)]
+PLANS["C06"]["rule"] = HIST_RULE + "; family 'grow': 192 long enumerated histories (k in {99,100,101,199,200,201} rows and columns added one call at a time in 3 orders, or a 60x40 matrix filled entry by entry to 999/1000/1001/2001 non-zeros, then deletes at positions {0,1,50,98,99,100,last-1,last}, re-adds) with a full query dump at every checkpoint"
+PLANS["C06"]["bounds"] = {"quick": PLANS["C05"]["bounds"]["quick"] + "; 192 growth histories (about 550 calls each)", "thorough": PLANS["C05"]["bounds"]["thorough"] + "; growth histories on both builds"}
 PLANS["C07"] = {
     "title": "invalid arguments are rejected and leave the problem untouched",
     "rule": ("item = (start problem, valid prefix of <= depth ops, one invalid call out of 236: every index-taking mpq_QS* function x boundary values "
@@ -250,5 +254,141 @@ PLANS["C19"] = {
     "evidence": {"states": ["instances"], "transitions": ["executions"], "nontrivial": ["instances_nontrivial"]},
     "assumptions": ["the model of an instance is the problem the library reads back from the written file, so file round-trip defects (C08-C10) stay out of this check",
                     "for a non-OPTIMAL status esolver is not required to write a basis with -b (the verdict may be reached without one)"] + LP_ASSUME,
+}
+
+
+# ---------------------------------------------------------------- C17 / C18 / C20: oracle layers over the other explorations
+def twin(run):
+    """second execution of the same item space in differently laid-out processes: other shard count (other item order per
+    process), perturbed allocator contents, shifted stack/environment; transcripts must be identical"""
+    b = dict(run)
+    b["id"] = run["id"] + "#B"
+    b["shards"] = 13
+    env = dict(run.get("env", {}))
+    env.update({"MALLOC_PERTURB_": "165", "VERIF_PAD": "x" * 3001})
+    b["env"] = env
+    b["twin_of"] = run["id"]
+    return b
+
+
+def c17_post(per_run, counters, runs, seed, tier):
+    import subprocess, json, os, tempfile
+    import vlib
+    by = {r["id"]: r for r in per_run}
+    viols, broken = [], []
+    for r in runs:
+        if "twin_of" not in r:
+            continue
+        a, b = by.get(r["twin_of"]), by.get(r["id"])
+        if not a or not b or a.get("skipped") or b.get("skipped") or a["interrupted"] or b["interrupted"] or a["items_done"] != b["items_done"]:
+            continue
+        counters["determinism_items_compared"] = counters.get("determinism_items_compared", 0) + a["items_done"]
+        if a["transcript_xor"] == b["transcript_xor"]:
+            continue
+        # locate the first differing item with per-item transcript dumps
+        ra = [x for x in runs if x["id"] == r["twin_of"]][0]
+        item = locate_diff(ra, r, seed, tier)
+        viols.append({"t": "viol", "family": ra["family"], "item": item if item is not None else -1, "prop": "C17", "sig": "transcript-differs",
+                      "msg": "statuses/solutions/bases/files differ between two executions of %s (shards 16 vs 13, MALLOC_PERTURB_, shifted stack): first differing item %s" % (ra["id"], item),
+                      "_run": ra, "noreplay": True})
+    return viols, broken
+
+
+def locate_diff(ra, rb, seed, tier):
+    import subprocess, json, os, tempfile, shutil
+    import vlib
+    d = tempfile.mkdtemp(prefix="trdiff", dir=vlib.CACHE)
+    res = {}
+    try:
+        for tag, run in (("a", ra), ("b", rb)):
+            exe = vlib.build_harness(run["variant"], "qsx", HARNESS_SOURCES)
+            out = os.path.join(d, tag + ".jsonl")
+            cmd = [exe, run["family"], "--out", out, "--trdump", "--shard", "0/1"]
+            for k, v in run.get("opts", {}).items():
+                cmd += ["--opt", "%s=%s" % (k, v)]
+            env = dict(os.environ); env.update(vlib.SAN_ENV); env.update(run.get("env", {}))
+            subprocess.run(cmd, env=env, stdout=subprocess.DEVNULL, stderr=subprocess.DEVNULL, timeout=3600)
+            h = {}
+            for ln in open(out, errors="replace"):
+                try:
+                    j = json.loads(ln)
+                except Exception:
+                    continue
+                if j.get("t") == "tr":
+                    h[j["item"]] = j["h"]
+            res[tag] = h
+        for it in sorted(res["a"]):
+            if res["b"].get(it) != res["a"][it]:
+                return it
+    except Exception:
+        return None
+    finally:
+        shutil.rmtree(d, ignore_errors=True)
+    return None
+
+
+_c17_quick_base = [
+    hist("hist-d2-san", "san", 2, weight=2),
+    hist("inv-d1r-san", "san", 1, reduced=1, family="inv", weight=3),
+    lp("S0mk-sanl1-k1x", "sanl1", "S0mk", "k1x", weight=3),
+    fam("rd-LP-k1-san", "san", "rd", {"fmt": "LP", "k": 1}, weight=1),
+    fam("rd-MPS-k1-san", "san", "rd", {"fmt": "MPS", "k": 1}, weight=1),
+    fam("wr-LP-k1-san", "san", "wr", {"fmt": "LP", "k": 1, "chain": 1}, weight=1),
+    fam("basis-S1q-san", "san", "basis", {"fam": "S1q", "verify": 0}, weight=2),
+    fam("copy-s1-san", "san", "copy", {"steps": 1}, weight=3),
+    fam("lowp-SN1-san", "san", "lowp", {"fam": "SN1"}, weight=1),
+]
+_det_quick = [hist("hist-d2-prod", "prod", 2, weight=1), lp("S0q1-k1-prodl1", "prodl1", "S0q1", "k1", weight=2),
+              fam("wr-MPS-k1-prod", "prod", "wr", {"fmt": "MPS", "k": 1, "chain": 1}, weight=1)]
+VALGRIND = ["valgrind", "-q", "--error-exitcode=99", "--exit-on-first-error=yes", "--track-origins=no", "--undef-value-errors=yes", "--leak-check=no", "--child-silent-after-fork=no"]
+PLANS["C17"] = {
+    "title": "no call sequence or input is memory-unsafe, and results are reproducible",
+    "rule": ("the union of the explorations of the other properties executed on the AddressSanitizer + UndefinedBehaviorSanitizer build (GMP memory routed to the system allocator, -DEG_LPNUM_MEMSLAB=0): any sanitizer "
+             "report, signal or exit() inside the library is attributed to the item that was executing (forked workers, shared progress cell); reproducibility: every item records a transcript hash of all statuses, "
+             "rationals, bases and written files, and selected explorations are executed twice - 16 versus 13 shards (different item order per process), MALLOC_PERTURB_, shifted stack - with the XOR of the per-item "
+             "hashes compared (a difference is located by a per-item transcript dump); thorough adds Valgrind memcheck (uninitialised values fatal) on the -O2 build"),
+    "quick": _c17_quick_base + _det_quick + [twin(r) for r in _det_quick],
+    "thorough": _c17_quick_base + [hist("hist-d3r-san", "san", 3, reduced=1, weight=6), fam("copy-s2-san", "san", "copy", {"steps": 2}, weight=1, range=[0, 150000]),
+                                   lp("S0c-sanl1-default", "sanl1", "S0c", "default", weight=4), lp("T-san-default", "san", "T", "default", weight=3, opts={"fam": "T", "cfg": "default", "tscale": 30}),
+                                   hist("hist-d2-valgrind", "prod", 2, weight=8, wrapper=VALGRIND, timeout=600),
+                                   lp("S0q1-valgrind", "prodl1", "S0q1", "k1x", weight=4, wrapper=VALGRIND, timeout=600),
+                                   hist("hist-d3r-prod", "prod", 3, reduced=1, weight=2), lp("S0c-k1-prodl1", "prodl1", "S0c", "k1", weight=6)]
+                + [twin(hist("hist-d3r-prod", "prod", 3, reduced=1, weight=2)), twin(lp("S0c-k1-prodl1", "prodl1", "S0c", "k1", weight=6))] + _det_quick + [twin(r) for r in _det_quick],
+    "post": c17_post,
+    "deadline": {"quick": 900, "thorough": 5400},
+    "bounds": {"quick": "sanitizer build: depth-2 histories, 35k invalid calls, S0mk x entry/pricing/scaling configurations, rendered and written files, all bases of S1q, copy interleavings; double execution of depth-2 histories, S0q1 x K<=1 and MPS chains",
+               "thorough": "adds depth-3 reduced histories and S0c/T on the sanitizer build, Valgrind memcheck on depth-2 histories and S0q1, double execution of depth-3 histories and S0c x K<=1"},
+    "evidence": {"states": ["histories", "instances", "invalid_calls", "bases"], "transitions": ["api_transitions", "executions"], "nontrivial": ["histories", "instances_nontrivial", "invalid_calls"]},
+    "assumptions": ["clang UBSan's pointer-overflow check is disabled: it flags NULL+0 in ILLlib_newrows on the path the repository's own test takes; no access is performed",
+                    "a transcript excludes log text (display lines contain elapsed time)"] + HIST_ASSUME,
+}
+for r in PLANS["C17"]["quick"] + PLANS["C17"]["thorough"]:
+    r["crash_props"] = sorted(set(r.get("crash_props", []) + ["C17"]))
+
+_c18_runs_q = [hist("hist-d2-san", "san", 2, weight=3), hist("inv-d1r-san", "san", 1, reduced=1, family="inv", weight=4), hist("inv-d0-san", "san", 0, family="inv", weight=1),
+               fam("copy-s1-san", "san", "copy", {"steps": 1}, weight=3)]
+PLANS["C18"] = {
+    "title": "everything allocated is released: create/free cycles do not leak",
+    "rule": ("every history / invalid-call / copy item is bracketed: bytes allocated (sanitizer allocator statistics, GMP included) are read before QSexactStart() and after every problem, basis and returned array was freed through its "
+             "documented function and QSexactClear() was called; any difference is a leak attributed to that item (this covers reachable-but-forgotten and lost memory alike). Early exits are the point: every rejected call of C07 "
+             "and every history ending in a failed or non-OPTIMAL solve is such an item; the reader families add every parse-error exit"),
+    "quick": _c18_runs_q,
+    "thorough": _c18_runs_q + [hist("hist-d3r-san", "san", 3, reduced=1, weight=8), hist("inv-d1-san", "san", 1, family="inv", weight=6)],
+    "bounds": {"quick": "depth-2 histories, all invalid calls from depth-0 and depth-1 (reduced) lifecycle states, copy interleavings of 1 step", "thorough": "adds depth-3 reduced histories and invalid calls from all depth-1 states"},
+    "evidence": {"states": ["mem_balance_checked"], "transitions": ["api_transitions"], "nontrivial": ["mem_balance_checked"]},
+    "assumptions": ["allocation failure is not injected: EGmalloc / ILL_SAFE_MALLOC terminate the process on exhaustion by design, so no 'failed part-way and returned' state exists for it"] + HIST_ASSUME,
+}
+_c20_q = [hist("hist-d2-san", "san", 2, weight=3), hist("inv-d1-prod", "prod", 1, family="inv", weight=3), lp("S0q1-k1", "prodl1", "S0q1", "k1", weight=3),
+          fam("rd-LP-k1", "prod", "rd", {"fmt": "LP", "k": 1}, weight=1), fam("wr-MPS-k1", "prod", "wr", {"fmt": "MPS", "k": 1, "chain": 1}, weight=1)]
+PLANS["C20"] = {
+    "title": "with a log handler installed the library writes nothing to stdout or stderr",
+    "rule": ("file descriptors 1 and 2 are redirected to a memfd for the whole item while a QSlog handler is installed; after the item the memfd must be empty. Items: every history (successful and failing calls), every "
+             "invalid call (rejected arguments, missing files), every solve of the LP families under every display level 0-3 (configuration lattice K<=1), every file written/read by the format families"),
+    "quick": _c20_q,
+    "thorough": _c20_q + [hist("hist-d3r-prod", "prod", 3, reduced=1, weight=3), lp("T-k1", "prod", "T", "k1", weight=3, opts={"fam": "T", "cfg": "k1", "tscale": 30}), lp("Sillq-k1", "prodl1", "Sillq", "k1", weight=2)],
+    "bounds": {"quick": "depth-2 histories, 95k invalid calls, S0q1 x K<=1 (display 0..3), rendered LP files, MPS conversion chains", "thorough": "adds depth-3 reduced histories, family T and ill-formed bounds x K<=1"},
+    "evidence": {"states": ["histories", "invalid_calls", "instances"], "transitions": ["api_transitions", "executions"], "nontrivial": ["histories", "invalid_calls", "instances_nontrivial"]},
+    "assumptions": ["calls documented to write to a caller-supplied FILE*/filename are not issued with stdout as target",
+                    "message fragmentation (one handler call per character of an offending token in the LP reader) is not flagged: no byte bypasses the handler"] + HIST_ASSUME,
 }
 NOT_YET = {}
